@@ -56,7 +56,7 @@ theorem revokeAccessS_effect (s : Store) (rid : Nat) :
     (revokeAccessS s rid).1.refresh = s.refresh ∧ (revokeAccessS s rid).1.rtIdx = s.rtIdx ∧
     (revokeAccessS s rid).1.codes = s.codes ∧ (revokeAccessS s rid).1.atIdx = s.atIdx := by
   unfold revokeAccessS
-  cases alookup s.atIdx rid <;> simp
+  simp
 
 theorem exec_refresh_effect (ss : SState) (c : Call) :
     RefreshEffect ss (ss.exec c).1 ∧
